@@ -107,7 +107,7 @@ for cap in (1, 2, 4, 8):
     # ---- put, calls that rehash: a new key into a table at the load limit, one unit per count (new capacity is then a constant)
     for c in range(0, cap // 2 + 1):
         size = GROW_SIZE(c)
-        kk = c + 2
+        kk = max(2, c + 1)      # the c present keys and the new one (keys are interchangeable: the hash function is arbitrary)
         muts = [PUT_M[0], SIZE_M] + ([PUT_M[1]] if c < cap // 2 else [])
         unit("tab.put.cap%d.grow.c%d" % (cap, c),
              PUT_CLAUSE + " - a new key with a non-nil value put into a table with %d entries at the load limit: rehashes once to capacity %d and inserts" % (c, size),
